@@ -538,6 +538,10 @@ func init() {
 					if !ctx.Mine(idx) {
 						continue
 					}
+					if ctx.Expired() {
+						ctx.Incomplete("nat-gaps", "nat-gaps: time cap hit at pair %d", idx)
+						break
+					}
 					in := input{Timeout: T, Ops: []udpx.Op{{K: "S", C: 0, Key: 0, T: 1, N: 30}, {K: "A", D: g1}, {K: "S", C: 0, Key: 0, T: 1, N: 30}, {K: "A", D: g2},
 						{K: "S", C: 0, Key: 0, T: 1, N: 30}, {K: "A", D: T - time.Second}, {K: "R", C: 0, T: 1, N: 20}, {K: "A", D: 2 * time.Second}}}
 					sc := scenario(in)
